@@ -83,6 +83,7 @@ pub fn replay(v: &serde_json::Value) -> Vec<String> {
         Some("c13_async") => check_c13_async(&case, &plan(), o, &mut acc),
         Some("c07_async") => check_c07_async(&case, &plan(), o, &mut acc),
         Some("c08_async") => check_c08_async(&case, &plan(), o, &mut acc),
+        Some("c09_cancel_reuse") => check_c09_cancel_reuse(&case, o, &mut acc),
         other => {
             eprintln!("MACHINERY ERROR: replay file names no known check ({other:?})");
             std::process::exit(2);
@@ -715,6 +716,44 @@ fn run_history_sync(
 }
 
 /// Async: [P1 cancelled at poll k under schedule sigma, P2 FIFO] for all (k, sigma).
+/// C09 "each at most once per solver ... over successive solves on one solver": the case's problem is
+/// solved with the provider signalling cancellation from poll k on (every k), the signal is withdrawn
+/// and the same problem is solved again on the same solver; no get_candidates / get_dependencies
+/// request may be repeated over the two calls (whatever the first call had been answered is kept).
+pub fn check_c09_cancel_reuse(case: &Case, order: (usize, u64, u32), acc: &mut Acc) {
+    set_call(json!({"fn": "c09_cancel_reuse"}));
+    let base = run_case(&case.u, &case.p, &RunCfg::default());
+    if matches!(base.outcome, Outcome::Panic(_)) {
+        return;
+    }
+    for k in 0..base.polls {
+        let mut cfg = RunCfg::default();
+        cfg.log = true;
+        let mut session = Session::new(&case.u, &cfg);
+        let mut seen_c = HashSet::new();
+        let mut seen_d = HashSet::new();
+        acc.count("histories");
+        for (i, plan) in [CancelPlan::At { k, sticky: true }, CancelPlan::Never].into_iter().enumerate() {
+            let res = session.solve(&case.p, plan, vec![]);
+            acc.evaluations += 1;
+            if let Some(w) = refetch(&mut seen_c, &mut seen_d, &res.log) {
+                acc.violation(viol(
+                    "C09",
+                    "duplicate-request:after-cancelled-solve",
+                    format!("solve cancelled from poll {k} on, then solved again on the same solver: call {i}: {w}"),
+                    case,
+                    json!({"cancel_from_poll": k, "call": i}),
+                    order,
+                ));
+                return;
+            }
+            if matches!(res.outcome, Outcome::Panic(_)) {
+                break;
+            }
+        }
+    }
+}
+
 pub fn check_c13_async(case: &Case, plan: &AsyncPlan, order: (usize, u64, u32), acc: &mut Acc) {
     set_call(json!({"fn": "c13_async", "plan": plan}));
     let alphabet = problem_alphabet(case);
